@@ -3360,14 +3360,19 @@ theorem source_attr_matrix :
     DeriveC16.svStructAttrs, DeriveC16.srStructAttrs, DeriveC16.dvStructAttrs, DeriveC16.drStructAttrs]
   intro a; constructor <;> (intro h; rcases h with h | h | h | h <;> simp [h])
 
-/-- the `is_required` rules of the sources are the ones the interpreter uses: `Field.required` (`!skip &&
-!allow_missing`) for both UDT derives, `!skip` (`rowRequiredCount`) for `DeserializeRow` -/
+/-- the interpreter's notion of a required field IS the sources' `Field::is_required` (`DeriveC16.*Required` are the
+Rust expressions translated token by token by the extractor): `Field.required` for both UDT derives, the
+`!skip` filter of `rowRequiredCount` for `DeserializeRow` -/
 theorem source_required_rules :
-    DeriveC16.svRequiredRule = "notSkipNotAllowMissing" ∧ DeriveC16.dvRequiredRule = "notSkipNotAllowMissing" ∧
-    DeriveC16.drRequiredRule = "notSkip" ∧
-    (∀ f : Field, f.required = (!f.skip && !f.allowMissing)) ∧
-    (∀ fields : List Field, rowRequiredCount fields = (fields.filter (fun f => !f.skip)).length) :=
-  ⟨rfl, rfl, rfl, fun _ => rfl, fun _ => rfl⟩
+    (∀ f : Field, f.required = DeriveC16.svRequired f.skip f.allowMissing) ∧
+    (∀ f : Field, f.required = DeriveC16.dvRequired f.skip f.allowMissing) ∧
+    (∀ fields : List Field, requiredCount fields =
+      (fields.filter (fun f => DeriveC16.dvRequired f.skip f.allowMissing)).length) ∧
+    (∀ fields : List Field, rowRequiredCount fields =
+      (fields.filter (fun f => DeriveC16.drRequired f.skip f.allowMissing)).length) := by
+  refine ⟨fun f => rfl, fun f => rfl, fun fields => ?_, fun fields => rfl⟩
+  unfold requiredCount
+  congr 1
 
 /-- every error any interpreter can return — for ALL descriptors and inputs — is a variant its generator in the
 macro sources emits (`RawColumnDeserializationFailed` comes from `ColumnIterator`, outside the macros) -/
@@ -3477,17 +3482,100 @@ theorem source_emissions_modelled :
     DeriveC16.dvDeByNameEmits, DeriveC16.dvDeOrderedEmits, DeriveC16.drTcByNameEmits, DeriveC16.drTcOrderedEmits,
     DeriveC16.drDeByNameEmits, DeriveC16.drDeOrderedEmits, DeriveC16.dvExtractFieldsEmits]
 
-/-- `NotUdt` and whole-value null: handing the generated code a CQL type that is not a UDT is `NotUdt` for
-serialization and for the type check, in both flavors, whatever the struct and the values; a null UDT value is
-rejected with `ExpectedNonNull` once the type check has passed (and with the type check's error otherwise) -/
-theorem not_udt_and_null (d : Desc) (fvs : List (Field × Val)) (db : List Col) (v : Option (List Cell)) :
-    serValueAt d fvs none = .error .svNotUdt ∧ deserValueAt d none v = .error .dvNotUdt ∧
+/-- PIN of the source shape the interpreter was transcribed from: per generator, the error emissions with the
+attribute-flag conditions enclosing them, and all attribute-flag conditions, literally — ORDER and MULTIPLICITY
+included.  A macro edit that adds, drops, renames or reorders an emission, or changes / inverts / removes a flag
+condition (`if forbid_excess_udt_fields`, `if field.default_when_null`, `(!skip_name_checks).then`, …) changes
+`Generated/DeriveC16.lean` and breaks this obligation: the interpreter then has to be re-read against the source.
+(It says nothing about flag-free conditions or data flow.) -/
+theorem source_shape_pinned :
+    DeriveC16.svByNameGuarded = ["NoSuchFieldInUdt|if:self.ctx.attributes.forbid_excess_udt_fields", "NotUdt", "FieldSerializationFailed", "ValueMissingForUdtField|if:!#visited_flag_names && !#rust_field_ignore_missing_flags"] ∧
+    DeriveC16.svByNameGuards = ["if:self.ctx.attributes.forbid_excess_udt_fields", "else-of:self.ctx.attributes.forbid_excess_udt_fields", "if:self .ctx .attributes .forbid_excess_udt_fields", "else-of:self .ctx .attributes .forbid_excess_udt_fields", "if:!self.ctx.attributes.forbid_excess_udt_fields", "if:!#visited_flag_names && !#rust_field_ignore_missing_flags"] ∧
+    DeriveC16.svOrderedGuarded = ["NotUdt", "FieldSerializationFailed", "FieldNameMismatch|if:!#field_can_be_ignored", "ValueMissingForUdtField|if:!#field_can_be_ignored", "NoSuchFieldInUdt|if:self.ctx.attributes.forbid_excess_udt_fields"] ∧
+    DeriveC16.svOrderedGuards = ["if:!self.ctx.attributes.skip_name_checks", "else-of:!self.ctx.attributes.skip_name_checks", "if:!#field_can_be_ignored", "if:!#field_can_be_ignored", "if:self.ctx.attributes.forbid_excess_udt_fields"] ∧
+    DeriveC16.srByNameGuarded = ["NoColumnWithName|if:!self.#nonflattened_visited_flag_names"] ∧
+    DeriveC16.srByNameGuards = ["if:!self.ctx.fields.is_empty()", "if:self.ctx.fields.is_empty()", "else-of:self.ctx.fields.is_empty()", "arm:#(#nonflattened_columns", "if:!self.#nonflattened_visited_flag_names", "if:!self.#flattened_visited_flag_names", "if:!self.#nonflattened_visited_flag_names", "if:!self.#flattened_visited_flag_names"] ∧
+    DeriveC16.srOrderedGuarded = [] ∧
+    DeriveC16.srOrderedGuards = ["if:f.attrs.flatten", "else-of:f.attrs.flatten"] ∧
+    DeriveC16.srByNameRuntimeGuarded = ["ValueMissingForColumn"] ∧
+    DeriveC16.srByNameRuntimeGuards = [] ∧
+    DeriveC16.srSerializeColumnGuarded = ["ColumnSerializationFailed"] ∧
+    DeriveC16.srSerializeColumnGuards = [] ∧
+    DeriveC16.srOrderedRuntimeGuarded = ["ValueMissingForColumn", "NoColumnWithName", "ColumnNameMismatch|if:ENFORCE_NAME && spec.name() != expected"] ∧
+    DeriveC16.srOrderedRuntimeGuards = ["if:ENFORCE_NAME && spec.name() != expected"] ∧
+    DeriveC16.dvExtractFieldsGuarded = ["NotUdt"] ∧
+    DeriveC16.dvExtractFieldsGuards = [] ∧
+    DeriveC16.dvTcOrderedGuarded = ["FieldNameMismatch|else-of:default_when_missing", "FieldTypeCheckFailed", "ExcessFieldInUdt|then:self.0.attrs.forbid_excess_udt_fields", "TooFewFields"] ∧
+    DeriveC16.dvTcOrderedGuards = ["if:default_when_missing", "else-of:default_when_missing", "then:(!skip_name_checks)", "then:self.0.attrs.forbid_excess_udt_fields"] ∧
+    DeriveC16.dvDeOrderedGuarded = ["FieldDeserializationFailed", "PANIC|else-of:default_when_missing", "PANIC|else-of:default_when_missing", "FieldDeserializationFailed"] ∧
+    DeriveC16.dvDeOrderedGuards = ["if:field.skip", "if:default_when_null", "else-of:default_when_null", "if:default_when_missing", "else-of:default_when_missing", "if:skip_name_checks", "else-of:skip_name_checks", "if:default_when_missing", "else-of:default_when_missing"] ∧
+    DeriveC16.dvTcByNameGuarded = ["FieldTypeCheckFailed|then:(!field.skip)", "DuplicatedField|then:(!field.skip)", "ExcessFieldInUdt|if:forbid_excess_udt_fields", "ValuesMissingForUdtFields"] ∧
+    DeriveC16.dvTcByNameGuards = ["then:(!field.skip)", "then:(!field.skip)", "then:field .is_required()", "then:field.is_required()", "if:forbid_excess_udt_fields", "else-of:forbid_excess_udt_fields"] ∧
+    DeriveC16.dvDeByNameGuarded = ["PANIC|else-of:field.default_when_missing", "FieldDeserializationFailed|then:(!field.skip)", "PANIC|then:(!field.skip)", "FieldDeserializationFailed"] ∧
+    DeriveC16.dvDeByNameGuards = ["if:field.skip", "if:field.default_when_missing", "else-of:field.default_when_missing", "then:(!field.skip)", "if:field.default_when_null", "else-of:field.default_when_null", "then:(!field.skip)"] ∧
+    DeriveC16.drTcOrderedGuarded = ["ColumnNameMismatch|then:(!self.0.attrs.skip_name_checks)", "ColumnTypeCheckFailed", "WrongColumnCount"] ∧
+    DeriveC16.drTcOrderedGuards = ["then:(!self.0.attrs.skip_name_checks)", "if:f.default_when_null", "else-of:f.default_when_null"] ∧
+    DeriveC16.drDeOrderedGuarded = ["PANIC|then:(!self.0.struct_attrs().skip_name_checks)", "ColumnDeserializationFailed|if:field.default_when_null", "ColumnDeserializationFailed|else-of:field.default_when_null", "PANIC"] ∧
+    DeriveC16.drDeOrderedGuards = ["if:field.skip", "then:(!self.0.struct_attrs().skip_name_checks)", "if:field.default_when_null", "else-of:field.default_when_null"] ∧
+    DeriveC16.drTcByNameGuarded = ["ColumnTypeCheckFailed|then:(!field.skip)", "DuplicatedColumn|then:(!field.skip)", "ColumnWithUnknownName", "ValuesMissingForColumns"] ∧
+    DeriveC16.drTcByNameGuards = ["then:(!field.skip)", "then:(!field.skip)", "then:field.is_required()", "if:field.default_when_null", "else-of:field.default_when_null", "then:field.is_required()"] ∧
+    DeriveC16.drDeByNameGuarded = ["PANIC", "PANIC", "ColumnDeserializationFailed|if:field.default_when_null", "ColumnDeserializationFailed|else-of:field.default_when_null", "PANIC", "PANIC"] ∧
+    DeriveC16.drDeByNameGuards = ["if:field.skip", "if:field.default_when_null", "else-of:field.default_when_null", "then:(!field.skip)"] :=
+  ⟨rfl, rfl, rfl, rfl, rfl, rfl, rfl, rfl, rfl, rfl, rfl, rfl, rfl, rfl, rfl, rfl, rfl, rfl, rfl, rfl, rfl, rfl, rfl, rfl, rfl, rfl, rfl, rfl, rfl, rfl, rfl, rfl⟩
+
+/-- the model-side counterpart of the flag-guarded emissions pinned above — for ALL descriptors and inputs the
+interpreter returns the error only under the flag that guards its emission in the source:
+`NoSuchFieldInUdt` / `ExcessFieldInUdt` only with `forbid_excess_udt_fields`; `FieldNameMismatch` /
+`ColumnNameMismatch` only without `skip_name_checks`; and `default_when_null` is what turns a null into the
+default (otherwise the field type's own `deserialize` decides) -/
+theorem guards_govern_model :
+    ("NoSuchFieldInUdt|if:self.ctx.attributes.forbid_excess_udt_fields" ∈ DeriveC16.svByNameGuarded ∧
+      ∀ d fvs db, serValueByName d fvs db = .error .svNoSuchField → d.forbidExcess = true) ∧
+    ("NoSuchFieldInUdt|if:self.ctx.attributes.forbid_excess_udt_fields" ∈ DeriveC16.svOrderedGuarded ∧
+      "if:!self.ctx.attributes.skip_name_checks" ∈ DeriveC16.svOrderedGuards ∧
+      ∀ sn forbid fs db, (svOrdered sn forbid fs db = .error .svNoSuchField → forbid = true) ∧
+        (svOrdered sn forbid fs db = .error .svFieldNameMismatch → sn = false)) ∧
+    ("ExcessFieldInUdt|if:forbid_excess_udt_fields" ∈ DeriveC16.dvTcByNameGuarded ∧
+      ∀ d db, tcValueByName d db = .error .dvExcessField → d.forbidExcess = true) ∧
+    ("ExcessFieldInUdt|then:self.0.attrs.forbid_excess_udt_fields" ∈ DeriveC16.dvTcOrderedGuarded ∧
+      "then:(!skip_name_checks)" ∈ DeriveC16.dvTcOrderedGuards ∧
+      ∀ sn forbid fs db, (dvTcOrd sn forbid fs db = .error .dvExcessField → forbid = true) ∧
+        (dvTcOrd sn forbid fs db = .error .dvFieldNameMismatch → sn = false)) ∧
+    ("ColumnNameMismatch|if:ENFORCE_NAME && spec.name() != expected" ∈ DeriveC16.srOrderedRuntimeGuarded ∧
+      ∀ sn fs db, srOrdered sn fs db = .error .srColumnNameMismatch → sn = false) ∧
+    ("ColumnNameMismatch|then:(!self.0.attrs.skip_name_checks)" ∈ DeriveC16.drTcOrderedGuarded ∧
+      ∀ sn fs db, drTcOrd sn fs db = .error .drColumnNameMismatch → sn = false) ∧
+    ("if:field.default_when_null" ∈ DeriveC16.dvDeByNameGuards ∧ "if:default_when_null" ∈ DeriveC16.dvDeOrderedGuards ∧
+      "if:field.default_when_null" ∈ DeriveC16.drDeByNameGuards ∧ "if:field.default_when_null" ∈ DeriveC16.drDeOrderedGuards ∧
+      ∀ f : Field, (f.defaultWhenNull = true → deValD f none = some (defaultVal f)) ∧
+        (f.defaultWhenNull = false → ∀ c, deValD f c = deVal f c) ∧ (∀ b, deValD f (some b) = deVal f (some b))) := by
+  refine ⟨⟨by simp [DeriveC16.svByNameGuarded], serValueByName_noSuchField⟩,
+    ⟨by simp [DeriveC16.svOrderedGuarded], by simp [DeriveC16.svOrderedGuards], svOrdered_flags⟩,
+    ⟨by simp [DeriveC16.dvTcByNameGuarded], tcValueByName_excess⟩,
+    ⟨by simp [DeriveC16.dvTcOrderedGuarded], by simp [DeriveC16.dvTcOrderedGuards], dvTcOrd_flags⟩,
+    ⟨by simp [DeriveC16.srOrderedRuntimeGuarded], srOrdered_nameMismatch⟩,
+    ⟨by simp [DeriveC16.drTcOrderedGuarded], drTcOrd_nameMismatch⟩,
+    ⟨by simp [DeriveC16.dvDeByNameGuards], by simp [DeriveC16.dvDeOrderedGuards], by simp [DeriveC16.drDeByNameGuards],
+      by simp [DeriveC16.drDeOrderedGuards], ?_⟩⟩
+  intro f
+  refine ⟨fun h => by simp [deValD, h], fun h c => by simp [deValD, h], fun b => by simp [deValD]⟩
+
+/-- BY DEFINITION of `serValueAt` / `deserValueAt` (written for this; the evidence that the macros behave so is the
+run: `-:notudt` and `NULL` cases): a CQL type that is not a UDT is `NotUdt` for serialization and for the type
+check, in both flavors, whatever the struct and the values -/
+example (d : Desc) (fvs : List (Field × Val)) (v : Option (List Cell)) :
+    serValueAt d fvs none = .error .svNotUdt ∧ deserValueAt d none v = .error .dvNotUdt := ⟨rfl, rfl⟩
+
+/-- what IS proved about `NotUdt` and the whole-value null: the `NotUdt` kinds are emitted where the model places
+them (source tie), and a null UDT value is always rejected — with `ExpectedNonNull` once the type check has
+passed, with the type check's own error otherwise -/
+theorem not_udt_and_null (d : Desc) (db : List Col) :
     errVariant .svNotUdt ∈ DeriveC16.svByNameEmits ∧ errVariant .svNotUdt ∈ DeriveC16.svOrderedEmits ∧
     errVariant .dvNotUdt ∈ DeriveC16.dvExtractFieldsEmits ∧
     (∃ x, deserValueAt d (some db) none = .error x) ∧
     (tcValueByName d db = .ok () → d.flavor = .byName → deserValueAt d (some db) none = .error .dvNullUdt) ∧
     (tcValueOrdered d db = .ok () → d.flavor = .ordered → deserValueAt d (some db) none = .error .dvNullUdt) := by
-  refine ⟨rfl, rfl, by simp [errVariant, DeriveC16.svByNameEmits], by simp [errVariant, DeriveC16.svOrderedEmits],
+  refine ⟨by simp [errVariant, DeriveC16.svByNameEmits], by simp [errVariant, DeriveC16.svOrderedEmits],
     by simp [errVariant, DeriveC16.dvExtractFieldsEmits], ?_, ?_, ?_⟩
   · unfold deserValueAt deserValueOpt
     simp only []
